@@ -211,8 +211,14 @@ func verifC03(samples []verifKindSample) {
 	got, ok := verifJSONTree(out)
 	if smp.name == "SchemaNulls" || smp.name == "ExampleNull" {
 		// default / example / value members whose value is null: lost (known finding); everything else must still be there
+		hasNull := false
+		for k, m := range in {
+			if m == nil && (k == "default" || k == "example" || k == "value") {
+				hasNull = true
+			}
+		}
 		if !flipped {
-			verifKnown("C03-null-valued-member-lost", true)
+			verifKnown("C03-null-valued-member-lost", hasNull)
 			verifAssert(ok && reflect.DeepEqual(got, any(in)), "C03 "+smp.name+": a member whose value is null survives the trip")
 			verifKnown("C03-null-valued-member-lost", false)
 		}
